@@ -154,8 +154,13 @@ def run(tier, seed, replay=None):
                    "object maps: the model receives every flavour as its base-object table (Functor.ob1 derives "
                    "adjoints from the base image, F_adjoint_l / F_adjoint_r); Python's dispatch on "
                    "Mapping / callable / __contains__ is not modelled"]
+    import os, sys, time
+    t0 = time.time()
+    lap = (lambda what: sys.stderr.write("[c04 %s %.1fs]\n" % (what, time.time() - t0))) \
+        if os.environ.get("VERIF_TIMING") else (lambda what: None)
     rep.lean = lean_obligations(PROP, thorough=(tier == "thorough"))
-    n_cases = 150 if tier == "quick" else 5000
+    lap("lean")
+    n_cases = 150 if tier == "quick" else 4000
     rng = random.Random(seed)
     drv = Driver()
     fams = {"monoidal": Family("monoidal"), "rigid": Family("rigid")}
@@ -324,18 +329,22 @@ def run(tier, seed, replay=None):
             for bx in d.boxes:
                 if type(bx).__name__ == "Swap":
                     law("swap", lambda: F(bx), lambda: fam.m.Diagram.swap(F(bx.dom[:1]), F(bx.dom[1:])))
+        lap("main")
         # ---- box maps whose images are not plain diagrams (formal sums, bubbles, bare special boxes,
         #      identities, diagrams containing a Sum box), source diagrams with Sum / Bubble boxes
         run_image_stream(rep, drv, fams, random.Random(seed * 7919 + 404),
                          80 if tier == "quick" else 400,
                          max_terms=12 if tier == "quick" else 24)
+        lap("image")
         # ---- the same image families at the level of the free category (cat.Functor on cat.Arrow)
         run_cat_stream(rep, drv, random.Random(seed * 104729 + 411),
                        160 if tier == "quick" else 1000,
                        max_terms=12 if tier == "quick" else 24)
+        lap("cat")
         # ---- object maps of every flavour x winding numbers x image lengths x shapes
         run_obmap_stream(rep, drv, fams, random.Random(seed * 15485863 + 17),
                          1, per_cell=5 if tier == "quick" else None)
+        lap("obmap")
     finally:
         drv.close()
     return rep.finish()
